@@ -248,6 +248,56 @@ func runC11(c *Ctx) {
 		})
 	}
 	checkAppendsWhenNonNil(c, "C11-R4", "rateLimitMiddleware")
+	// every route gets a limiter of its own: a non-nil result is the limiter constructed by this very call
+	if f := c.fn("cmd/glyph", "rateLimitMiddleware"); f != nil {
+		k := 0
+		eachInstr(f, func(_ *ssa.BasicBlock, _ int, ins ssa.Instruction) {
+			r, ok := ins.(*ssa.Return)
+			if !ok {
+				return
+			}
+			rv := retVals(r)[0]
+			if isNilConst(stripConv(rv)) {
+				return
+			}
+			k++
+			var own func(v ssa.Value, d int) bool
+			own = func(v ssa.Value, d int) bool {
+				if d > 8 {
+					return false
+				}
+				switch x := stripConv(v).(type) {
+				case *ssa.Call:
+					return callName(x) == serverPath+".RateLimitMiddleware"
+				case *ssa.Phi:
+					for _, e := range x.Edges {
+						if !isNilConst(stripConv(e)) && !own(e, d+1) {
+							return false
+						}
+					}
+					return true
+				case *ssa.UnOp:
+					if al, ok := x.X.(*ssa.Alloc); ok && x.Op == token.MUL {
+						n := 0
+						for _, rr := range refs(al) {
+							if st, ok := rr.(*ssa.Store); ok && st.Addr == ssa.Value(al) {
+								n++
+								if !isNilConst(stripConv(st.Val)) && !own(st.Val, d+1) {
+									return false
+								}
+							}
+						}
+						return n > 0
+					}
+				}
+				return false
+			}
+			c.ob("C11-R4", fnKey(f)+"#returns-the-limiter-built-by-this-call-"+itoa(k), r.Pos(), own(rv, 0), "the limiter handed to a route is not the one constructed by this call (it comes from a table or variable shared between calls): routes with the same declared limit then share one bucket map, and a client that spent its budget on one route is rejected on another it never used")
+		})
+		if k == 0 {
+			c.ob("C11-R4", fnKey(f)+"#returns-a-limiter", f.Pos(), false, "rateLimitMiddleware never returns a limiter")
+		}
+	}
 
 	// ---- R5 window spellings
 	c.rule("C11-R5", "EXH: every window spelling used in the documentation's `ratelimit(N/<w>)` examples is either a case of rateLimitMiddleware's window switch or one of the per-minute spellings (min, minute, m) handled by the default")
